@@ -12,11 +12,23 @@
    ListLaw / ReadAhead / CloseReaches state the property over the second in terms of the first.
 
    JSON source: values are decoded one by one; `bad` = position of a malformed value (0 = none):
-   it is yielded as an error result (ErrVal) and ends the iteration.                              *)
+   it is yielded as an error result (ErrVal) and ends the iteration.
+
+   Element values come in two sorts.  src "slice" | "json": plain numbers.  src "jsond": the
+   stream consists of STRUCTURED DOCUMENTS (top-level null, or an object whose fields a (number),
+   b (array), m (object with keys x, y) are each omitted | null | given) and the element the
+   iterator must yield for a document is Decode(doc): the decoding of THAT document alone --
+   an omitted or null field is the zero value whatever the documents before it contained.
+   The decoder of the library merges a document into its target (DecodeInto); the source must
+   therefore hand it a fresh zero target for every element.  Values already yielded never change
+   afterwards (OutStable): `out` only grows.                                                      *)
 EXTENDS Integers, Sequences, FiniteSets, TLC, Json
 
 CONSTANTS MaxDepth, MaxLen, Vals, Limits,
-          MaxClose    \* Close calls explored per run (1 or 2)
+          MaxClose,   \* Close calls explored per run (1 or 2)
+          DocAlpha,   \* alphabet of structured JSON documents (src "jsond")
+          DocLen,     \* "jsond" streams have up to DocLen documents ...
+          DocDepth    \* ... under chains of up to DocDepth layers
 
 ErrVal == 99
 \* configuration values (cfg files cannot write sets of negative numbers portably)
@@ -31,20 +43,92 @@ Preds  == {"true", "false", "even"}
 Layers == [k : {"map"}, f : Maps, p : {""}, n : {0}] \cup
           [k : {"filter"}, f : {""}, p : Preds, n : {0}] \cup
           [k : {"limit"}, f : {""}, p : {""}, n : Limits]
-F(f, x) == IF f = "inc" THEN x + 1 ELSE 2 * x
-P(p, x) == CASE p = "true" -> TRUE [] p = "false" -> FALSE [] p = "even" -> x % 2 = 0
+Fi(f, x) == IF f = "inc" THEN x + 1 ELSE 2 * x
+Pi(p, x) == CASE p = "true" -> TRUE [] p = "false" -> FALSE [] p = "even" -> x % 2 = 0
 Min2(a, b) == IF a < b THEN a ELSE b
+
+(* ---- structured JSON documents and their values ---------------------------------------------
+   value    [a : Int, b : Seq(Int), m : [x, y : Int]]     (m.k = 0: key k is not in the map)
+   document NullDoc | Obj(fa, fb, fm), a field being [k : "absent" | "null" | "val", v : value of the field]
+            (v is the zero value unless k = "val"; in a given object m.v, 0 = key not written)          *)
+NoMap   == [x |-> 0, y |-> 0]
+ZeroVal == [a |-> 0, b |-> <<>>, m |-> NoMap]
+ErrDoc  == [a |-> ErrVal, b |-> <<>>, m |-> NoMap]
+Fld(k, v) == [k |-> k, v |-> v]
+AFields(nums) == {Fld("absent", 0), Fld("null", 0)} \cup {Fld("val", n) : n \in nums}
+BFields(arrs) == {Fld("absent", <<>>), Fld("null", <<>>)} \cup {Fld("val", q) : q \in arrs}
+MFields(maps) == {Fld("absent", NoMap), Fld("null", NoMap)} \cup {Fld("val", mp) : mp \in maps}
+NullDoc == [null |-> TRUE, a |-> Fld("absent", 0), b |-> Fld("absent", <<>>), m |-> Fld("absent", NoMap)]
+Obj(fa, fb, fm) == [null |-> FALSE, a |-> fa, b |-> fb, m |-> fm]
+AllDocs(nums, arrs, maps) == {NullDoc} \cup {Obj(fa, fb, fm) : fa \in AFields(nums), fb \in BFields(arrs), fm \in MFields(maps)}
+Present(d) == Cardinality({f \in {"a", "b", "m"} : d[f].k # "absent"})
+
+\* THE RULE: the element of a document is read off that document alone
+Decode(d) == IF d.null THEN ZeroVal
+             ELSE [a |-> IF d.a.k = "val" THEN d.a.v ELSE 0,
+                   b |-> IF d.b.k = "val" THEN d.b.v ELSE <<>>,
+                   m |-> IF d.m.k = "val" THEN d.m.v ELSE NoMap]
+\* what the library decoder does with a target that already holds prev (encoding/json Unmarshal rules):
+\* null into a struct or a number: no effect; null into a slice or map: nil; an omitted field is not
+\* touched; an array replaces the slice contents; an object is merged into an existing map
+DecodeInto(prev, d) ==
+    IF d.null THEN prev
+    ELSE [a |-> IF d.a.k = "val" THEN d.a.v ELSE prev.a,
+          b |-> CASE d.b.k = "val" -> d.b.v [] d.b.k = "null" -> <<>> [] OTHER -> prev.b,
+          m |-> CASE d.m.k = "val" -> [key \in {"x", "y"} |-> IF d.m.v[key] # 0 THEN d.m.v[key] ELSE prev.m[key]]
+                  [] d.m.k = "null" -> NoMap [] OTHER -> prev.m]
+\* An alphabet D covers the class "the element depends on earlier documents" when it has a witness for every
+\* way a retained target can leak: null document, omitted / null number, omitted array, omitted map, map key
+\* not rewritten, and an array that fits into the storage of an earlier, different one (overwrites it in place)
+Discriminating(D) ==
+    /\ \A d \in D : DecodeInto(ZeroVal, d) = Decode(d)
+    /\ \E p, d \in D : d.null /\ Decode(p) # ZeroVal
+    /\ \E p, d \in D : ~d.null /\ d.a.k = "absent" /\ Decode(p).a # 0
+    /\ \E p, d \in D : ~d.null /\ d.a.k = "null" /\ Decode(p).a # 0
+    /\ \E p, d \in D : ~d.null /\ d.b.k = "absent" /\ Decode(p).b # <<>>
+    /\ \E p, d \in D : ~d.null /\ d.m.k = "absent" /\ Decode(p).m # NoMap
+    /\ \E p, d \in D : /\ ~p.null /\ ~d.null /\ p.m.k = "val" /\ d.m.k = "val"
+                        /\ \E key \in {"x", "y"} : p.m.v[key] # 0 /\ d.m.v[key] = 0
+    /\ \E p, d \in D : /\ ~p.null /\ ~d.null /\ p.b.k = "val" /\ d.b.k = "val"
+                        /\ 0 < Len(d.b.v) /\ Len(d.b.v) <= Len(p.b.v) /\ SubSeq(p.b.v, 1, Len(d.b.v)) # d.b.v
+    /\ \E p, d \in D : Present(p) = 3 /\ Present(d) = 3 /\ Decode(p) # Decode(d)
+\* configuration alphabets
+NumsS == {1, 2}
+ArrsS == {<<>>, <<1>>, <<2, 1>>, <<1, 2, 2>>}
+MapsS == {NoMap, [x |-> 1, y |-> 0], [x |-> 0, y |-> 2], [x |-> 2, y |-> 1]}
+ArrsT == UNION {[1..n -> {1, 2}] : n \in 0..2} \cup {<<1, 2, 2>>}
+MapsT == [x : 0..2, y : 0..2]
+FullS == {Obj(Fld("val", 2), Fld("val", <<2, 1>>), Fld("val", [x |-> 2, y |-> 1])),
+          Obj(Fld("val", 1), Fld("val", <<1>>), Fld("val", [x |-> 1, y |-> 0]))}
+\* null, {}, every object with exactly one field written (null or given), two fully populated objects
+DocsQ == {d \in AllDocs(NumsS, ArrsS, MapsS) : d.null \/ Present(d) <= 1} \cup FullS
+DocsT == {d \in AllDocs(NumsS, ArrsT, MapsT) : d.null \/ Present(d) <= 1} \cup FullS
+\* a smallest alphabet with all the witnesses (exhaustive interleavings in phase M)
+DocsM == LET A0 == Fld("absent", 0)  B0 == Fld("absent", <<>>)  M0 == Fld("absent", NoMap)
+         IN  {NullDoc, Obj(A0, B0, M0), Obj(Fld("null", 0), B0, M0), Obj(Fld("val", 1), B0, M0),
+              Obj(A0, Fld("val", <<2, 1>>), M0), Obj(A0, Fld("val", <<1>>), M0),
+              Obj(A0, B0, Fld("val", [x |-> 2, y |-> 1])), Obj(A0, B0, Fld("val", [x |-> 1, y |-> 0]))} \cup FullS
+ASSUME Discriminating(DocAlpha)
+
+IsDoc(t)  == t.src = "jsond"
+IsJSON(t) == t.src \in {"json", "jsond"}
+Err(t)    == IF IsDoc(t) THEN ErrDoc ELSE ErrVal
+\* Map functions and Filter predicates act on the number of a plain element / on field a of a structured one
+F(t, f, x) == IF IsDoc(t) THEN [x EXCEPT !.a = Fi(f, @)] ELSE Fi(f, x)
+P(t, p, x) == Pi(p, IF IsDoc(t) THEN x.a ELSE x)
+\* the i-th element of the source: the independent reading of the i-th value / document
+Elem(t, i) == IF IsJSON(t) /\ i = t.bad THEN Err(t) ELSE IF IsDoc(t) THEN Decode(t.xs[i]) ELSE t.xs[i]
 
 Depth(t) == Len(t.layers)
 
 (* ---- list semantics ---------------------------------------------------------------- *)
-Base(t) == IF t.src = "json" /\ t.bad > 0 THEN SubSeq(t.xs, 1, t.bad - 1) \o <<ErrVal>> ELSE t.xs
-Apply(ly, q) ==
-    CASE ly.k = "map"    -> [i \in 1..Len(q) |-> F(ly.f, q[i])]
-      [] ly.k = "filter" -> SelectSeq(q, LAMBDA v : P(ly.p, v))
+Base(t) == [i \in 1..(IF IsJSON(t) /\ t.bad > 0 THEN t.bad ELSE Len(t.xs)) |-> Elem(t, i)]
+Apply(t, ly, q) ==
+    CASE ly.k = "map"    -> [i \in 1..Len(q) |-> F(t, ly.f, q[i])]
+      [] ly.k = "filter" -> SelectSeq(q, LAMBDA v : P(t, ly.p, v))
       [] ly.k = "limit"  -> IF ly.n <= 0 THEN q ELSE SubSeq(q, 1, Min2(ly.n, Len(q)))   \* n <= 0 : no limit
 RECURSIVE DenoteTo(_, _)
-DenoteTo(t, j) == IF j = 0 THEN Base(t) ELSE Apply(t.layers[j], DenoteTo(t, j - 1))
+DenoteTo(t, j) == IF j = 0 THEN Base(t) ELSE Apply(t, t.layers[j], DenoteTo(t, j - 1))
 Denote(t) == DenoteTo(t, Depth(t))
 
 (* ---- operational semantics (per-level state) ------------------------------------------ *)
@@ -67,8 +151,9 @@ SrcNext(t, s) ==
         ELSE                                                         \* JSONIter
             IF r.done THEN Res(FALSE, Upd(s, 0, r))
             ELSE IF r.pulls + 1 > Len(t.xs) THEN Res(FALSE, Upd(s, 0, [r EXCEPT !.done = TRUE]))     \* io.EOF
-            ELSE IF r.pulls + 1 = t.bad THEN Res(TRUE, Upd(s, 0, [r EXCEPT !.pulls = @ + 1, !.val = ErrVal, !.done = TRUE]))
-            ELSE Res(TRUE, Upd(s, 0, [r EXCEPT !.pulls = @ + 1, !.val = t.xs[r.pulls + 1]]))
+            ELSE IF r.pulls + 1 = t.bad THEN Res(TRUE, Upd(s, 0, [r EXCEPT !.pulls = @ + 1, !.val = Err(t), !.done = TRUE]))
+            ELSE Res(TRUE, Upd(s, 0, [r EXCEPT !.pulls = @ + 1,                      \* `var val T` : a FRESH target per element
+                                               !.val = IF IsDoc(t) THEN DecodeInto(ZeroVal, t.xs[r.pulls + 1]) ELSE t.xs[r.pulls + 1]]))
 
 RECURSIVE NextAt(_, _, _), FilterLoop(_, _, _)
 NextAt(t, j, s) ==
@@ -80,7 +165,7 @@ NextAt(t, j, s) ==
                     IF r.done THEN Res(FALSE, s1)
                     ELSE LET in == NextAt(t, j - 1, s1)
                          IN  IF ~in.ok THEN Res(FALSE, Upd(in.s, j, [r EXCEPT !.done = TRUE]))
-                             ELSE Res(TRUE, Upd(in.s, j, [r EXCEPT !.val = F(ly.f, ValAt(t, j - 1, in.s)), !.pulls = @ + 1]))
+                             ELSE Res(TRUE, Upd(in.s, j, [r EXCEPT !.val = F(t, ly.f, ValAt(t, j - 1, in.s)), !.pulls = @ + 1]))
                [] ly.k = "filter" -> FilterLoop(t, j, s1)
                [] ly.k = "limit" ->
                     IF ly.n > 0 /\ r.count >= ly.n THEN Res(FALSE, s1)          \* checked BEFORE touching the inner iterator
@@ -93,7 +178,7 @@ FilterLoop(t, j, s) ==
         ELSE LET in == NextAt(t, j - 1, s)
              IN  IF ~in.ok THEN Res(FALSE, Upd(in.s, j, [r EXCEPT !.done = TRUE]))
                  ELSE LET v == ValAt(t, j - 1, in.s)
-                      IN  IF P(t.layers[j].p, v)
+                      IN  IF P(t, t.layers[j].p, v)
                               THEN Res(TRUE, Upd(in.s, j, [r EXCEPT !.val = v, !.pulls = @ + 1]))
                               ELSE FilterLoop(t, j, Upd(in.s, j, [r EXCEPT !.val = v]))
 
@@ -101,7 +186,7 @@ FilterLoop(t, j, s) ==
 CloseAt(t, j, s) ==
     [i \in 1..Len(s) |->
         IF i > j + 1 THEN s[i]
-        ELSE IF i = 1 /\ t.src = "json" THEN [s[i] EXCEPT !.closes = @ + 1, !.done = TRUE]
+        ELSE IF i = 1 /\ IsJSON(t) THEN [s[i] EXCEPT !.closes = @ + 1, !.done = TRUE]
         ELSE [s[i] EXCEPT !.closes = @ + 1]]
 
 (* ---- the state machine (one action per public call on the composition) ------------------ *)
@@ -118,9 +203,13 @@ Seqs(n) == UNION {[1..m -> Vals] : m \in 0..n}
 Terms == { [src |-> src, xs |-> xs, bad |-> bad, layers |-> ls] :
              src \in {"slice", "json"}, xs \in Seqs(MaxLen), bad \in 0..MaxLen,
              ls \in UNION {[1..d -> Layers] : d \in 0..MaxDepth} }
+DocSeqs(n) == UNION {[1..m -> DocAlpha] : m \in 0..n}
+DocTerms == { [src |-> "jsond", xs |-> xs, bad |-> bad, layers |-> ls] :
+                xs \in DocSeqs(DocLen), bad \in 0..DocLen,
+                ls \in UNION {[1..d -> Layers] : d \in 0..DocDepth} }
 WellFormed(t) == t.bad <= Len(t.xs) /\ (t.src = "slice" => t.bad = 0)
 
-Init == /\ term \in {t \in Terms : WellFormed(t)}
+Init == /\ term \in {t \in Terms \cup DocTerms : WellFormed(t)}
         /\ st = InitSt(term) /\ out = <<>> /\ last = "none" /\ fin = FALSE /\ nAfter = 0 /\ nClose = 0
 
 DoNext == /\ nClose = 0 /\ (fin => nAfter < 1)
@@ -147,6 +236,10 @@ IsPrefix(a, b) == Len(a) <= Len(b) /\ \A i \in 1..Len(a) : a[i] = b[i]
 \* and nothing more after the end)
 ListLaw == IsPrefix(out, Denote(term)) /\ (fin => out = Denote(term))
 ValLaw  == last = "t" => (out # <<>> /\ ValNow = out[Len(out)])
+\* the value the source currently holds is the independent reading of the element at ITS position, whatever came before
+SrcLaw  == G(st, 0).pulls > 0 => G(st, 0).val = Elem(term, G(st, 0).pulls)
+\* values already yielded never change: later calls only append to what has been handed out
+OutStable == [][IsPrefix(out, out')]_vars
 \* every level yields a prefix of what the sub-composition denotes
 LevelLaw == \A j \in 0..Depth(term) : G(st, j).pulls <= Len(DenoteTo(term, j))
 \* a limited iterator never pulls more than one element beyond what it yields from the iterator below
@@ -159,5 +252,5 @@ ReadAhead == ReadAheadAt(term, st)
 CloseReaches == \A j \in 1..Depth(term) : G(st, j - 1).closes >= G(st, j).closes
 ClosedOnce   == nClose > 0 => G(st, 0).closes >= 1
 TypeOK == /\ Len(st) = Depth(term) + 1 /\ last \in {"none", "t", "f"} /\ nClose \in 0..2
-          /\ Len(out) <= MaxLen
+          /\ Len(out) <= Len(term.xs)
 =============================================================================
